@@ -408,4 +408,4 @@ def check(case: dict) -> dict:
     return {'nontrivial': True, 'classes': classes}
 
 
-ENGINES = [Engine('reloads', cases, check, quick=120, thorough=1500, batch=60)]
+ENGINES = [Engine('reloads', cases, check, quick=120, thorough=5000, batch=100, thorough_s=1200.0)]
